@@ -32,6 +32,8 @@ type Facts struct {
 	// writes to receiver / package-level variables inside process/validate/Parse/Validate
 	Writes        []string
 	ClosureWrites []string
+	// CtxStrayWrites: assignments to a SchemaCtx field that the per-child loops do not manage
+	CtxStrayWrites []string
 	// HelperOperandWrites: field / element writes through the receiver or a parameter inside struct_helpers.go
 	HelperOperandWrites []string
 	// ExecCtxFormatters: the distinct second arguments of the NewExecCtx calls (the formatter a top-level
@@ -826,6 +828,48 @@ func extractFacts(repo string) (*Facts, error) {
 		}
 	}
 	fc.ClosureWrites = closureWrites(fset, closureFiles)
+	// F-ctx: a SchemaCtx is shared by all children of a struct / slice node, whose loops re-initialise Data, ValPtr,
+	// DType, Exit and CanCatch per child (facts above) and whose test loops set Test; Path is pushed and popped.
+	// Any OTHER field of SchemaCtx assigned outside the two constructors is state that leaks from one child to the next.
+	{
+		managed := map[string]bool{"Data": true, "ValPtr": true, "DType": true, "Exit": true, "CanCatch": true, "Test": true, "Path": true, "ExecCtx": true}
+		ctxField := map[string]bool{}
+		for _, f := range fc.TypeFields["SchemaCtx"] {
+			ctxField[f] = true
+		}
+		for name, f := range closureFiles {
+			for _, decl := range f.Decls {
+				fd, ok := decl.(*ast.FuncDecl)
+				if !ok || fd.Body == nil || fd.Name.Name == "NewSchemaCtx" || fd.Name.Name == "NewValidateSchemaCtx" {
+					continue
+				}
+				// (a helper the constructors share — the function that takes the object from the pool — is a constructor)
+				isCtor := false
+				ast.Inspect(fd.Body, func(n ast.Node) bool {
+					if call, ok := n.(*ast.CallExpr); ok && strings.HasSuffix(exprString(call.Fun), "SchemaCtxPool.Get") {
+						isCtor = true
+					}
+					return true
+				})
+				if isCtor {
+					continue
+				}
+				ast.Inspect(fd.Body, func(n ast.Node) bool {
+					as, ok := n.(*ast.AssignStmt)
+					if !ok {
+						return true
+					}
+					for _, l := range as.Lhs {
+						if sel, ok := l.(*ast.SelectorExpr); ok && ctxField[sel.Sel.Name] && !managed[sel.Sel.Name] {
+							fc.CtxStrayWrites = append(fc.CtxStrayWrites, name+":"+fd.Name.Name+": "+exprString(l))
+						}
+					}
+					return true
+				})
+			}
+		}
+		sort.Strings(fc.CtxStrayWrites)
+	}
 	// F-fmt: the formatter every top-level entry point hands its execution context (NewExecCtx(errs, X))
 	{
 		seen := map[string]int{}
@@ -1306,6 +1350,7 @@ func (f *Facts) lean() string {
 	s.WriteString("]\n\n")
 	fmt.Fprintf(&s, "/-- the formatter every top-level entry point hands its execution context: the distinct second arguments of the %d NewExecCtx(errs, X) calls -/\ndef execCtxFormatters : List String := %s\n\n", f.ExecCtxSites, leanStrList(f.ExecCtxFormatters))
 	fmt.Fprintf(&s, "/-- Pick / Omit / Extend / Merge (every function of struct_helpers.go): assignments to a field or element reached from the receiver, a parameter or a range variable over one -/\ndef helperOperandWrites : List String := %s\n\n", leanStrList(f.HelperOperandWrites))
+	fmt.Fprintf(&s, "/-- assignments (outside the two constructors) to a field of SchemaCtx other than those the struct / slice loops re-initialise per child (Data, ValPtr, DType, Exit, CanCatch), the test loops set (Test) or the path stack (Path): per-node state on a context that all children of a node share -/\ndef ctxStrayWrites : List String := %s\n\n", leanStrList(f.CtxStrayWrites))
 	fmt.Fprintf(&s, "/-- writes inside function literals (test / transform / option / coercer closures) to captured or package-level variables -/\ndef closureWrites : List String := %s\n\n", leanStrList(f.ClosureWrites))
 	fmt.Fprintf(&s, "/-- writes rooted at a schema receiver or package variable — assignments, inc/dec and in-place mutator calls (Store, Swap, LoadOrStore, Do, ...) on receiver fields — inside process/validate/Parse/Validate and every function of the schema files reachable from them -/\ndef schemaWrites : List String := %s\n\n", leanStrList(f.Writes))
 	srcOf := func(p string) string {
